@@ -12,10 +12,14 @@ LEAN_MODULES = ["SigpyVerif.Props.C17"]
 THEOREMS = ["SigpyVerif.C17." + t for t in [
     "normalize_eq", "power_step_unit", "phase_ref", "phase_ref_norm", "espirit_keeps_iff", "crop_dichotomy",
     "gram_symmetric", "gram_psd", "power_monotone", "power_bounded", "espirit_scale", "calib_index_map",
+    "calib_index_map_2d", "calib_index_map_3d", "calib_shape_steps",
+    "bessel_gram_le", "gram_quadratic_le", "gram_inner_le", "eig_le_one_of_orthonormal_kernels", "eigenvalue_le_one",
+    "imgKernel_inner", "tensorPhase_norm_sq", "eig_le_one_espirit",
 ]]
 
 TOL_EXACT = 1e-12   # float pipeline vs exact rational model (observed <= 1e-15)
 TOL = 1e-6          # the property's own tolerance
+TOL_HYP = 1e-10     # hypotheses of `eig_le_one_espirit` on the real intermediates (observed <= 1e-14)
 
 
 def translate(ctx):
@@ -117,6 +121,90 @@ def capture_calib_matrix(ksp, cw, kw):
     return got.get("mat")
 
 
+def capture_internals(ksp, cw, kw, thresh):
+    """run the real constructor; capture what `svd` returned and the Gram array `AHA` the closure `forward` uses
+    (harness-side wrappers, /repo untouched)"""
+    import sigpy.mri as mr
+    got = {}
+    real = np.linalg.svd
+
+    def spy(a, *args, **kwargs):
+        r = real(a, *args, **kwargs)
+        got.setdefault("svd", r)
+        return r
+    np.linalg.svd = spy
+    try:
+        app = mr.app.EspiritCalib(ksp, calib_width=cw, kernel_width=kw, thresh=thresh, max_iter=1, show_pbar=False)
+    finally:
+        np.linalg.svd = real
+    fwd = app.alg.A
+    cells = dict(zip(fwd.__code__.co_freevars, [c.cell_contents for c in fwd.__closure__ or ()]))
+    return got.get("svd"), cells.get("AHA")
+
+
+def dft_phases(n, kwid):
+    """E[q, p] = entry of the centred orthonormal inverse DFT of length n for voxel q and the grid position at which
+    the centre padding/cropping (`sp.resize`) puts kernel offset p; 0 where the offset is cropped.  Written from
+    the definitions (C05: centre = n//2; C09: resize aligns index kw//2 with n//2)."""
+    ishift, oshift = max(kwid // 2 - n // 2, 0), max(n // 2 - kwid // 2, 0)
+    size = min(kwid - ishift, n - oshift)
+    E = np.zeros((n, kwid), dtype=complex)
+    q = np.arange(n)
+    for p_ in range(ishift, ishift + size):
+        j = p_ - ishift + oshift
+        E[:, p_] = np.exp(2j * np.pi * (q - n // 2) * (j - n // 2) / n) / np.sqrt(n)
+    return E
+
+
+def check_hypotheses(ctx, bad):
+    """the hypotheses of `eig_le_one_espirit` on the REAL intermediates of EspiritCalib: (hv) the kept rows of VH are
+    orthonormal; (ha, h-eps, scale) the real AHA is  espiritScale * sum_k a_k a_k^H  with a_k(q)[c] = sum_p v_k[c,p] eps_q(p)
+    and |eps_q(p)|^2 <= 1/N; and the conclusion (largest eigenvalue of every AHA[q] <= 1)."""
+    rng = ctx.rng
+    ncase = 6 if ctx.tier == "quick" else 30
+    for i in range(ncase):
+        d = [1, 2, 2, 3][i % 4]
+        nc = rng.randint(2, 5 if d < 3 else 3)
+        ish = [rng.randint(2 if i % 5 == 4 else 4, 8 if d < 3 else 5) for _ in range(d)]
+        cw = rng.randint(2, max(ish) + 1)
+        kw = rng.randint(1, min(cw, 3))
+        thresh = rng.choice([0.0, 0.02, 0.02, 0.1, 0.3])
+        rs = np.random.RandomState(rng.randrange(1 << 30))
+        ksp = rs.randn(nc, *ish) + 1j * rs.randn(nc, *ish)
+        if i % 3 == 2:      # low-rank data: several singular values below the threshold
+            ksp = ksp[:1] * (rs.randn(nc) + 1j * rs.randn(nc)).reshape([nc] + [1] * d) + 1e-3 * ksp
+        case = dict(kind="hyp", nc=nc, ish=ish, cw=cw, kw=kw, thresh=thresh)
+        ctx.case(("hyp", json.dumps(case), i), sample=case if i < 3 else None)
+        ctx.count("hyp:%dd" % d)
+        N = int(np.prod(ish))
+        r = ctx.driver(["C17 gram nc=1 nk=1 N=%d kw=%d d=%d v=1" % (N, kw, d)])[0]
+        try:
+            scale = float(parse_list(r[3:])[0].real) if r.startswith("ok ") else None
+            svd, AHA = capture_internals(ksp, cw, kw, thresh)
+            _, S, VH = svd
+            V = VH[S > thresh * S.max(), :]
+            orth = float(np.max(np.abs(V @ V.conj().T - np.eye(len(V))))) if len(V) else 0.0
+            Es = [dft_phases(n, kw) for n in ish]
+            epsmax = max(float(np.max(np.abs(E) ** 2)) * n for E, n in zip(Es, ish))      # N * |eps|^2 <= 1
+            a = V.reshape([len(V), nc] + [kw] * d)
+            for ax in range(d):
+                a = np.moveaxis(np.tensordot(a, Es[ax], axes=([2 + ax], [1])), -1, 2 + ax)
+            G = scale * np.einsum("kc...,kd...->...cd", a, a.conj())
+            G = np.transpose(G, list(range(d))[::-1] + [d, d + 1])
+            gerr = float(np.max(np.abs(G - AHA))) if G.shape == AHA.shape else np.inf
+            emax = float(np.max(np.linalg.eigvalsh(AHA.reshape(-1, nc, nc))))
+            obs = dict(orth=orth, eps=epsmax, gram=gerr, eigmax=emax, kept=int(len(V)))
+            ok = orth <= TOL_HYP and epsmax <= 1 + TOL_HYP and gerr <= TOL_HYP and emax <= 1 + TOL_HYP
+        except Exception as e:  # noqa
+            obs, ok = "err %s %s" % (type(e).__name__, e), False
+        if not ok:
+            bad["hyp"] += 1
+            ctx.disagree("eig-hypotheses", case, obs, "orth, gram <= 1e-10; N|eps|^2, eigmax <= 1 + 1e-10")
+    ctx.oblige("correspondence:C17.eig-hypotheses", "correspondence", bad["hyp"] == 0,
+               "%d cases where the kept VH rows are not orthonormal / AHA is not scale*sum a a^H of the DFT'd kernels / "
+               "an eigenvalue of AHA exceeds 1" % bad["hyp"])
+
+
 def correspond(ctx):
     ctx.rule = ("post-processing cases = Gaussian-rational vectors with rational moduli (Pythagorean chains), coils 2-8, "
                 "run through the REAL closures (`normalize` = alg.norm_func, PowerMethod._update, EspiritCalib._output) "
@@ -126,7 +214,7 @@ def correspond(ctx):
     rng = ctx.rng
     n = 40 if ctx.tier == "quick" else 300
     app2 = {}
-    bad = {"normalize": 0, "step": 0, "output": 0, "calib": 0}
+    bad = {"normalize": 0, "step": 0, "output": 0, "calib": 0, "hyp": 0}
     lines, meta = [], []
     for _ in range(n):
         nc = rng.randint(2, 8)
@@ -233,13 +321,17 @@ def correspond(ctx):
             bad["calib"] += 1
             ctx.disagree("calib-matrix", dict(kind="calib", nc=nc, ish=ish, cw=cw, kw=kw), impl[:300], r[:300])
     ctx.oblige("correspondence:C17.calib-matrix", "correspondence", bad["calib"] == 0, "%d disagreements" % bad["calib"])
+    check_hypotheses(ctx, bad)
     ctx.traces = ctx.evaluations
     ctx.assumptions += [
-        "eig <= 1 and the recovery of the true maps are NOT theorems (SVD / power-iteration numerics, smoothness and "
-        "calibration size): search oracle only — the property is claimed partially at proof level",
+        "eig <= 1 is a theorem (eig_le_one_espirit) UNDER the hypotheses that the kept rows of numpy's VH are orthonormal "
+        "and that sp.ifft of the centre-padded kernel is the centred orthonormal DFT (entries of modulus 1/sqrt N); both "
+        "are checked numerically on the real intermediates on every run (1e-10), not proved; that the power iteration's "
+        "estimate is within 1e-6 of <= 1 in floating point, and the recovery of the true maps, are search-oracle only",
         "the model's operations are exact (Gaussian rationals with rational moduli); the float pipeline is compared at 1e-12",
-        "the SVD, the ifft of the zero-padded kernels and the 2-D/3-D block loop nests are tied by correspondence "
-        "(calibration matrix exact on labelled data) and the C05/C09 checks, not re-proved here",
+        "the SVD and the ifft of the zero-padded kernels are tied by correspondence (eig-hypotheses stream) and C05; the "
+        "1-D/2-D/3-D calibration matrix index maps are theorems about the generated loop nests (calib_index_map*), "
+        "and the real matrix at the svd call is compared exactly on labelled data",
     ]
 
 
